@@ -331,27 +331,51 @@ func TestC20Child(t *testing.T) {
 		// the history child also decodes every input into ONE destination per kind that it keeps using (an application's
 		// reused message variable): what a later, fresh decode returns does not depend on that
 		reused := map[string]any{}
-		redecode := func(j c20Job) {
+		redecode := func(j c20Job) (problem string) {
 			defer func() { _ = recover() }()
 			if j.Kind == "failing" {
-				return
+				return ""
 			}
 			d, ok := reused[j.Kind]
 			if !ok {
 				d = c20Fresh(j.Kind)
 				reused[j.Kind] = d
 			}
+			// messages: the variable is reset the thrifty way, keeping the capacity of its item list (x.BatchItem = x.BatchItem[:0]);
+			// what is decoded into it then equals what a fresh variable gets
+			resetKept := false
+			switch x := d.(type) {
+			case *kmip.RequestMessage:
+				*x = kmip.RequestMessage{BatchItem: x.BatchItem[:0]}
+				resetKept = true
+			case *kmip.ResponseMessage:
+				*x = kmip.ResponseMessage{BatchItem: x.BatchItem[:0]}
+				resetKept = true
+			}
 			raw, _ := hex.DecodeString(j.Hex)
-			_ = ttlv.UnmarshalTTLV(raw, d)
+			err := ttlv.UnmarshalTTLV(raw, d)
+			if resetKept && err == nil {
+				fresh := c20Fresh(j.Kind)
+				raw2, _ := hex.DecodeString(j.Hex)
+				if ttlv.UnmarshalTTLV(raw2, fresh) == nil {
+					if diff := gen.Diff(fresh, d); diff != "" {
+						return "decoded into a reset variable that kept its item capacity, the message differs from a fresh decode: " + diff
+					}
+				}
+			}
+			return ""
 		}
 		for _, i := range p.Prefix {
-			redecode(p.Jobs[i])
+			_ = redecode(p.Jobs[i])
 			_ = c20Exec(p.Jobs[i], e)
 		}
 		// reversed order, on the same reused encoders
 		for i := len(p.Jobs) - 1; i >= 0; i-- {
-			redecode(p.Jobs[i])
+			problem := redecode(p.Jobs[i])
 			out[i] = c20Exec(p.Jobs[i], e)
+			if problem != "" {
+				out[i] = problem
+			}
 		}
 	}
 	b, _ := json.Marshal(out)
@@ -436,7 +460,7 @@ func tail(s string) string {
 func TestC20History(t *testing.T) {
 	const name = "TestC20History"
 	rec := evid.New("C20", name, "work lists of 2..14 encode/decode jobs (requests and responses of versions 1.0..1.4 and, one in five, of a foreign version 0.x/2.x/3.x, generic values, an application structure that carries a protocol version as plain data, header-less typed values - CryptographicParameters with later-version fields - of mixed versions, one job in three with its dates placed in UTC / fixed zones after decoding (one date in four repeating the instant of the previous one), and jobs whose calls fail: a request made unencodable by a negative interval, truncated documents) executed by three fresh child processes of the test binary: sequentially (reference), "+
-		"concurrently from a cold start with G in {2,8,32} goroutines released together in a drawn permutation, the input bytes of some jobs (always those of a structure of long big integers of both signs) existing once and being decoded by four goroutines at the same time, and on one reused, cleared encoder per encoding after a drawn prefix of unrelated jobs and in reverse order (that child also decodes every input into one destination per kind that it keeps using); "+
+		"concurrently from a cold start with G in {2,8,32} goroutines released together in a drawn permutation, the input bytes of some jobs (always those of a structure of long big integers of both signs and of a Register request carrying a transparent RSA public key) existing once and being decoded by four goroutines at the same time, and on one reused, cleared encoder per encoding after a drawn prefix of unrelated jobs and in reverse order (that child also decodes every input into one destination per kind that it keeps using); "+
 		"oracle: per-job digest of the four encodings and of the binary re-encoding after the XML and JSON round trips is identical across the children, every child's binary encoding equals the one the reference encoder predicts for the value alone, and in every child the XML and JSON documents of a typed message decode back to that binary encoding; the race-built variant additionally fails on any reported data race; "+
 		"non-trivial = the list holds messages of at least two different protocol versions or two different kinds; distinct by plan").Attach(t)
 	dir := t.TempDir()
@@ -554,6 +578,29 @@ func TestC20History(t *testing.T) {
 				tr.Kids = append(tr.Kids, &ttlvref.Node{Tag: 0x540151, Type: ttlvref.BigInteger, Big: v})
 			}
 			p.Jobs = append(p.Jobs, c20Job{Kind: "value", Hex: hex.EncodeToString(ttlvref.Write(tr))})
+			p.SharedInput = append(p.SharedInput, len(p.Jobs)-1)
+			n = len(p.Jobs)
+		}
+		if rapid.IntRange(0, 2).Draw(rt, "rsajob") != 2 {
+			// a Register request for an RSA public key in the transparent format (its modulus and exponent are big integer
+			// VALUE fields, not pointers), long enough for concurrent encodings to overlap; executed four times at once in
+			// the concurrent child like the job above
+			raw := make([]byte, rapid.SampledFrom([]int{128, 256, 512, 4096}).Draw(rt, "modlen"))
+			fill := rapid.SliceOfN(rapid.Byte(), 8, 8).Draw(rt, "modfill")
+			for x := range raw {
+				raw[x] = fill[x%8] ^ byte(x/8)
+			}
+			raw[0] |= 0x40
+			pk := &kmip.PublicKey{KeyBlock: kmip.KeyBlock{KeyFormatType: kmip.KeyFormatTypeTransparentRSAPublicKey, CryptographicAlgorithm: kmip.CryptographicAlgorithmRSA, CryptographicLength: int32(8 * len(raw)),
+				KeyValue: &kmip.KeyValue{Plain: &kmip.PlainKeyValue{KeyMaterial: kmip.KeyMaterial{TransparentRSAPublicKey: &kmip.TransparentRSAPublicKey{
+					Modulus: *new(big.Int).SetBytes(raw), PublicExponent: *big.NewInt(int64(rapid.SampledFrom([]int{3, 17, 65537}).Draw(rt, "pubexp")))}}}}}}
+			m := kmip.NewRequestMessage(kmip.V1_4, &payloads.RegisterRequestPayload{ObjectType: kmip.ObjectTypePublicKey, Object: pk})
+			tr, err := (&refwalk.Walker{}).Message(&m)
+			if err != nil {
+				rt.Fatalf("harness: %v", err)
+			}
+			enc := hex.EncodeToString(ttlvref.Write(tr))
+			p.Jobs = append(p.Jobs, c20Job{Kind: "request", Hex: enc, Expect: enc})
 			p.SharedInput = append(p.SharedInput, len(p.Jobs)-1)
 			n = len(p.Jobs)
 		}
